@@ -5729,6 +5729,12 @@ class PyCdlib:
         if self.eltorito_boot_catalog is None:
             raise pycdlibexception.PyCdlibInvalidInput('This ISO does not have an El Torito Boot Record')
 
+        if self.isohybrid_mbr is not None:
+            # The isohybrid boot sector (and GPT/APM, if any) describe the El
+            # Torito boot files; without them they would be written with
+            # whatever locations they held last.
+            raise pycdlibexception.PyCdlibInvalidInput('Cannot remove El Torito from an isohybrid ISO; call rm_isohybrid first')
+
         for brindex, br in enumerate(self.brs):
             if br.boot_system_identifier == b'EL TORITO SPECIFICATION'.ljust(32, b'\x00'):
                 eltorito_index = brindex
